@@ -36,7 +36,7 @@ func runC01(r *R) {
 		"(R2) handleGET writes block bytes/Content-Length only when GetBlock's error is nil and writes exactly buf[:size]; " +
 		"(R3/R5) no function other than GetBlock/PutBlock and the volume drivers reaches Volume.Get/ReadBlock/Put/WriteBlock; " +
 		"(R4) PutBlock touches no volume before the MD5 of the body equals the requested hash; " +
-		"(R6) CompareAndTouch touches/acknowledges only when Compare returned nil; (R7) compareReaderWithBuf returns nil only at EOF with nothing left to match. " +
+		"(R6) CompareAndTouch touches/acknowledges only when Compare returned nil; (R7) compareReaderWithBuf returns nil only at EOF with nothing left to match, and collisionOrCorrupt never returns a nil (read) error; (R8) GetBlock tries every readable volume (no filter before Volume.Get), so a bad copy cannot hide an intact one. " +
 		"Not decided: correctness of MD5 itself, driver internals, buffer-size boundary values."
 	r.NotDec = []string{"MD5 implementation", "volume driver internals beyond call shape", "size-boundary behaviour of getWithPipe"}
 	r.Assume = []string{"go/ssa faithfully represents the source", "crypto/md5.Sum and fmt.Sprintf(\"%x\") compute the lowercase hex MD5"}
